@@ -191,6 +191,14 @@ impl Ping {
     /// Start [`Ping`] event loop.
     pub async fn run(mut self) {
         tracing::debug!(target: LOG_TARGET, "starting ping event loop");
+        #[cfg(litep2p_verif)]
+        if crate::verif::config_notes_enabled() {
+            crate::verif::note_config(
+                self.service.local_peer_id(),
+                "ping",
+                format!("int={} mf={} cap={}", self.ping_interval.as_millis(), self._max_failures, self.tx.max_capacity()),
+            );
+        }
 
         loop {
             tokio::select! {
